@@ -151,23 +151,35 @@ def smooth_cases(ctx, rnd, focus):
     q = ctx.quick
     scopes = [({"fixed", "optimal"}, {1}, 4 if q else 6, 4 if q else 5, 4 if q else 5, 1, 2, 1),
               ({"mergemin", "mergetb"}, {1, 2}, 4 if q else 5, 3, 6 if q else 8, 1, 2, 1),
-              ({"combofilter"}, {1}, 1, 1, 1, 3, 2 if q else 3, 3)]
+              ({"combofilter"}, {1}, 1, 1, 1, 3, 2 if q else 3, 3),
+              ({"inputs"}, {1, 2}, 1, 1, 1, 2, 2, 3)]
     out = []
     for ops, samples, mp, ms, maxparam, arity, ntreat, nrows in scopes:
         c = {"NRows": nrows, "Samples": samples, "MaxParam": maxparam, "BugSeg": False, "BugNPL": False, "Export": True, "MaxPlates": mp,
              "MaxSize": ms, "SmOps": ops, "Arity": arity, "NTreat": ntreat, "BugOpt": False}
-        r = ctx.tlc("Smooth", tlc.cfg(init="SmInit", next_="SmNext", constants=c, invariants=SMOOTH_INV),
-                    note="generative %s on all profiles: <=%d plates of <=%d experiments, %d sample(s), params <=%d" % (
-                        "/".join(sorted(ops)), mp, ms, len(samples), maxparam), coverage=True, workers=16)
+        note = "generative %s on all profiles: <=%d plates of <=%d experiments, %d sample(s), params <=%d" % (
+            "/".join(sorted(ops)), mp, ms, len(samples), maxparam)
+        if "inputs" in ops:
+            note = "enumeration of every screen of <=%d rows (2 samples, 5 treatment shapes, 2 plates, any observed pattern) as inputs" % nrows
+        r = ctx.tlc("Smooth", tlc.cfg(init="SmInit", next_="SmNext", constants=c, invariants=SMOOTH_INV + ["InputsWellFormed"]),
+                    note=note, coverage=True, workers=16)
         if r.violation:
             ctx.violation("design-level: Smooth violates %s" % r.violation, {"kind": "tlc", "tlc": r.violation_text[:3000]})
-        ctx.need_coverage(r, [{"fixed": "Fixed", "optimal": "Optimal", "mergemin": "MergeMin", "mergetb": "MergeTB", "combofilter": "ComboFilter"}[o]
-                              for o in ops])
+        ctx.need_coverage(r, [{"fixed": "Fixed", "optimal": "Optimal", "mergemin": "MergeMin", "mergetb": "MergeTB", "combofilter": "ComboFilter",
+                               "inputs": "Pass"}[o] for o in ops])
         got = r.by_tag("smooth-in")
         budget = (250 if focus == "C13" else 120) if q else 6000
+        if "inputs" in ops:
+            budget = 60 if q else 2500
         if len(got) > budget:
             got = rnd.sample(got, budget)
         for e in got:
+            if e["op"] == "inputs":
+                # every small screen shape, through the operations that are specified relationally only
+                rs = RScreen([(x["s"], tuple(x["ts"]), x["pl"], bool(x["obs"])) for x in e["rows"]])
+                out += [("seg", rs, (rnd.randint(1, 2),), 1), ("pair", rs, (1, rnd.randint(0, 1)), 1), ("perm", rs, (0,), 1), ("cover", rs, (rnd.randint(0, 1),), 1),
+                        ("holdout", rs, rnd.choice([(1, 2), (1, 4), (1, 1)]), 1), ("random_holdout", rs, rnd.choice([(1, 2), (1, 4)]), 1), ("combofilter", rs, (), 1)]
+                continue
             relabel = {}
             if e["op"] in ("mergemin", "mergetb"):
                 # TLC explores size profiles up to the order of the plates; the order in which the real screen lists them (by name)
@@ -213,8 +225,9 @@ def run_retro(ctx, focus):
     cases += smooth_cases(ctx, rnd, focus)
     seeds = 2 if ctx.quick else 12
     traces, not_returned, returned_by_op = [], {}, {}
-    for ci, (op, rs, params) in enumerate(cases):
-        for k in range(seeds if op not in ("combofilter", "optimal") else 1):
+    for ci, case in enumerate(cases):
+        op, rs, params = case[:3]
+        for k in range((seeds if op not in ("combofilter", "optimal") else 1) if len(case) == 3 else case[3]):
             t, err = call(op, rs, params, ctx.seed * 1000 + k)
             if t is not None:
                 t["gen"] = ci >= n_plain
